@@ -11,6 +11,7 @@ package c05
 import (
 	"bytes"
 	"fmt"
+	"reflect"
 	"runtime"
 	"sync"
 	"sync/atomic"
@@ -366,3 +367,103 @@ var specConcEnc = pbt.Register(pbt.Spec[ConcEncCase]{
 })
 
 func TestConcurrentEncoders(t *testing.T) { specConcEnc.Check(t) }
+
+// ---- encode, change scalar fields, encode again ----------------------------------------------------------------
+
+type RewriteCase struct {
+	Pack  gpack.Case `json:"pack"`
+	Seed2 uint64     `json:"seed2"` // new values for the scalar fields
+	Times int        `json:"times"` // how many change / encode rounds
+}
+
+// refillScalars gives every exported scalar field of the pack (and of its common header) a new value; maps, lists,
+// byte blocks and nested objects are left alone (the packs do not track changes made behind their back to those).
+func refillScalars(p pack.Pack, s *rfl.Stream) int {
+	n := 0
+	var walk func(v reflect.Value)
+	walk = func(v reflect.Value) {
+		t := v.Type()
+		for i := 0; i < t.NumField(); i++ {
+			f := t.Field(i)
+			if f.PkgPath != "" {
+				continue
+			}
+			fv := v.Field(i)
+			switch fv.Kind() {
+			case reflect.Struct:
+				walk(fv)
+			case reflect.Int8, reflect.Int16, reflect.Int32, reflect.Int64, reflect.Int:
+				if f.Name == "TagHash" {
+					continue // a stored tag hash is the caller's statement about the tags; not a free scalar
+				}
+				x := s.Int64()
+				if fv.OverflowInt(x) {
+					x = int64(int8(x))
+				}
+				fv.SetInt(x)
+				n++
+			case reflect.Uint8:
+				fv.SetUint(uint64(uint8(s.Int64())))
+				n++
+			case reflect.Bool:
+				fv.SetBool(s.Bool())
+				n++
+			case reflect.String:
+				fv.SetString(s.String())
+				n++
+			case reflect.Float32, reflect.Float64:
+				fv.SetFloat(float64(s.Float32()))
+				n++
+			}
+		}
+	}
+	walk(reflect.ValueOf(p).Elem())
+	return n
+}
+
+func runRewrite(c RewriteCase) *pbt.Result {
+	gpack.ResetAux()
+	p, recs := build(c.Pack)
+	s2 := rfl.NewStream(nil, c.Seed2, 400)
+	changed := 0
+	for round := 0; round <= c.Times; round++ {
+		if round > 0 {
+			changed += refillScalars(p, s2)
+			if zp, ok := p.(*pack.ZipPack); ok && zp.Status > 2 {
+				zp.Status %= 3
+			}
+		}
+		w := ref.NewW()
+		w.I16(p.GetPackType())
+		w.Raw(refBody(p, recs))
+		want := w.B
+		got := pack.ToBytesPack(p)
+		if !bytes.Equal(got, want) {
+			k := 0
+			for k < len(got) && k < len(want) && got[k] == want[k] {
+				k++
+			}
+			return pbt.Fail("%s, encoding number %d of the same object (its scalar fields were given new values before each re-encoding): bytes differ from the reference encoder at offset %d (golib …%x, reference …%x)", c.Pack.Type, round+1, k, clip(got, k), clip(want, k))
+		}
+	}
+	return &pbt.Result{NT: changed > 0, Classes: []string{"type=" + c.Pack.Type}}
+}
+
+var specRewrite = pbt.Register(pbt.Spec[RewriteCase]{
+	Prop: "C05", Name: "encode-change-encode",
+	Rule:  "a pack of one of the eight covered types is encoded, then 1-3 times every exported scalar field (header included; maps, lists and byte blocks are left alone) gets a new value and the same object is encoded again; every encoding must equal the reference encoder's bytes for the object's fields at that moment (nothing a previous encoding computed may be written again); non-trivial = at least one scalar field changed; distinct by case",
+	Quick: 2500, Thorough: 120000,
+	Draw: func(t *rapid.T) RewriteCase {
+		names := []string{}
+		for _, n := range bodyTypes {
+			if n != "TextPack" { // its records are only reachable through AddText; it has no scalar body fields
+				names = append(names, n)
+			}
+		}
+		return RewriteCase{Pack: gpack.Case{Type: rapid.SampledFrom(names).Draw(t, "type"), Seed: rapid.Uint64().Draw(t, "seed"), Len: rapid.SampledFrom([]int{5, 40, 400}).Draw(t, "len")},
+			Seed2: rapid.Uint64().Draw(t, "seed2"), Times: rapid.IntRange(1, 3).Draw(t, "times")}
+	},
+	Run: runRewrite,
+})
+
+func TestEncodeChangeEncode(t *testing.T) { specRewrite.Check(t) }
